@@ -187,7 +187,7 @@ CHECKS.update({
     'C07': ('Lean 4 proof over an executable model of the resolution logic (layered forward scope, proxy state machine, event histories; '
             'structural induction over hint expressions, induction over histories, printer/parser round trip) + generated-program '
             'differential in fresh interpreters (4 annotation variants x placements x definition orders, forced sampler draws)',
-            'Theorems (Props/C07.lean, 23): string / postponed / names-only-quoted forms are stored with exactly the evaluated form\'s hint '
+            'Theorems (Props/C07.lean, 27): string / postponed / names-only-quoted forms are stored with exactly the evaluated form\'s hint '
             'when the forward scope binds the names as Python does and a proxy-free hint is checked unchanged forever; layer order and '
             'agreement with Python\'s scoping; proxy state machine: unresolved raises and leaves the cache untouched, resolves once defined, '
             'remembered after success only; define-after = define-before for every module-level history without rebinding. Counterexample '
